@@ -19,7 +19,8 @@ RULE = (
     "indexes it with `db create`, then a history of 3-14 steps interpreted against the current state: append a "
     "word / bullet to a note, change kind or priority, add a note (with or without ZID), delete a note, move a "
     "note with its ZID to another page, add a tag / property / date to a title or section header (changes what "
-    "untouched notes inherit), add a section, touch a file, add / delete / rename a page, break a page (an "
+    "untouched notes inherit), add a section, touch a file, add / delete / rename a page, bring a deleted / renamed "
+    "page back byte-identical under its old name, break a page (an "
     "unfinished line that is a syntax error: reindex must refuse) and repair it later, advance the calendar by "
     "1-40 days, `db reindex`, `db reindex <absolute paths of a subset>`; finally a plain `db reindex`.  Oracle "
     "(differential): the final files are copied to a fresh directory and indexed with `db create` under the same "
@@ -116,7 +117,7 @@ def check(case, rec: Rec) -> None:
             if what is None:
                 continue
             log.append(what)
-            if op in ("del_page", "rename_page", "move_note", "break_page"):
+            if op in ("del_page", "rename_page", "move_note", "break_page", "restore_page"):
                 flags.add(op)
             if advanced_pending:
                 flags.add("edit-after-day-advance")
